@@ -1,16 +1,19 @@
 (* C20 - "Statusline never crashes; its cache stays confined and untorn".
    Property theorems only; the proofs are in Proofs/SlPathP.v, SlMainP.v, SlAtomicP.v.
 
-   Full statement (kept for reference; the parts marked (!) are FALSE of the code as it is today,
-   see the _refuted theorems and notes/c20-findings.md):
-     for every stdin and every state of the cache / log / settings / transcript files the command
-     exits 0 with non-empty stdout and no traceback (!: transcript_path = true / 1), and stdout is a
-     single line whenever the input's text fields contain no line breaks (holds for the line that is
-     built; a line that is served from the cache is single iff the cached text is: with "\n" AND "\r"
-     excluded from the text fields this is an invariant of every history, with only "\n" excluded
-     it is not (!)).  The cache entry lives inside CACHE_DIR whatever the session id; concurrent or
-     killed invocations never make a reader see a partial or mixed line (!: session id "mcp", whose
-     entry and tmp name are also written by the MCP refresh pipeline - the SharedTmp variant below). *)
+   The model follows /repo after the repairs c6068c5 (guard in bin/dippy-statusline), fe4fc32 (a
+   transcript_path that is not a str is ignored), 16f7bd5 (one line, also from the cache) and b2d8f58 (the
+   MCP cache is mcp.servers).  The first three are switches of the model ([fixes]; [current] = all on), so
+   that the behaviour before each repair stays stated and refuted (the *_legacy_refuted theorems): a revert
+   is recognised with the original witness.
+
+   Full statement, now proved at full strength:
+     for every stdin and every state of the cache / log / settings / transcript files the command exits 0
+     with non-empty stdout and no traceback (C20_total), and stdout is a single line (C20_oneline: for EVERY
+     input, data-source answer and cache content, not only for inputs without line breaks).  The cache entry
+     and its tmp file live inside CACHE_DIR whatever the session id and never coincide with the MCP cache or
+     its tmp file (C20_confine*, C20_mcp_no_alias); concurrent or killed invocations never make a reader see a
+     partial or mixed line (C20_atomic). *)
 From Coq Require Import ZArith.
 From DippyV Require Import Base.Str Gen.Tables Model.Statusline Proofs.SlPathP Proofs.SlMainP Proofs.SlAtomicP.
 
@@ -42,58 +45,71 @@ Theorem C20_tmp_not_entry : forall base pid sid p sid' p', digits pid ->
 Proof. exact tmp_not_entry. Qed.
 Print Assumptions C20_tmp_not_entry.
 
-(* one session id - "mcp" - is mapped onto MCP_CACHE_PATH, the file of the MCP server-list cache, and its
-   tmp.<pid> name onto the file the refresh pipeline spawned by the same process redirects into: for this id
-   the entry has a second, unsynchronised writer (confirmed on /repo: a mixture of both texts is served) ... *)
-Theorem C20_mcp_alias_refuted : forall base pid, exists sid,
-  get_cache_path base sid = Some (mcp_cache_path base) /\ tmp_of pid (mcp_cache_path base) = mcp_tmp base pid.
-Proof. exact (fun base pid => ex_intro _ (JStr MCP_SID) (mcp_alias base pid)). Qed.
-Print Assumptions C20_mcp_alias_refuted.
-(* ... and it is the only one *)
-Theorem C20_mcp_alias_only : forall base sid,
-  get_cache_path base sid = Some (mcp_cache_path base) -> sid = JStr $"mcp".
-Proof. exact mcp_alias_only. Qed.
-Print Assumptions C20_mcp_alias_only.
+(* no session id is mapped onto MCP_CACHE_PATH (the file of the MCP server-list cache, which the detached
+   refresh pipeline writes), and no session's tmp.<pid> file is the file that pipeline redirects into, whatever
+   the two pids: the protocol's writers are the only writers of an entry *)
+Theorem C20_mcp_no_alias : forall base sid p, get_cache_path base sid = Some p -> p <> mcp_cache_path base.
+Proof. exact mcp_no_alias. Qed.
+Print Assumptions C20_mcp_no_alias.
+Theorem C20_mcp_tmp_no_alias : forall base pid pid' sid p, digits pid -> digits pid' -> get_cache_path base sid = Some p ->
+  tmp_of pid p <> mcp_tmp base pid' /\ tmp_of pid p <> mcp_cache_path base /\ p <> mcp_tmp base pid'.
+Proof. exact mcp_tmp_no_alias. Qed.
+Print Assumptions C20_mcp_tmp_no_alias.
+(* before b2d8f58 the MCP cache was called "mcp.cache": session id "mcp" was mapped onto it and its tmp.<pid>
+   onto the pipeline's (a mixture of both texts was served on /repo) *)
+Theorem C20_mcp_alias_legacy_refuted : forall base pid,
+  get_cache_path base (JStr $"mcp") = Some (path_join (cache_dir base) $"mcp.cache") /\
+  tmp_of pid (path_join (cache_dir base) $"mcp.cache") = path_join (cache_dir base) $"mcp.cache" ++ SL_MCP_TMP_INFIX ++ pid.
+Proof. exact mcp_alias_legacy. Qed.
+Print Assumptions C20_mcp_alias_legacy_refuted.
 
 (* ------------------------------------------------------------------ totality *)
-(* for every stdin value (None = json.load raised), every behaviour of every data source and of the
-   file system: exit 0, non-empty stdout, no traceback - provided the input does not make
-   get_context_from_transcript open file descriptor 1 (transcript_path = true or 1) *)
-Theorem C20_total_partial :
+(* for every stdin value (None = json.load raised), every behaviour of every data source, of the cache files
+   and of the file system: exit 0, non-empty stdout, no traceback *)
+Theorem C20_total :
   forall base pid sesc o_repr o_configured o_branch o_changes o_transcript o_pct o_mcp_local o_mcp_cache o_age o_read o_fs inp,
-  stdout_hazard inp = false ->
-  let o := sl_main base pid sesc o_repr o_configured o_branch o_changes o_transcript o_pct o_mcp_local o_mcp_cache
-               o_age o_read o_fs true inp in
+  let o := sl_main base pid sesc current o_repr o_configured o_branch o_changes o_transcript o_pct o_mcp_local o_mcp_cache
+               o_age o_read o_fs inp in
   exit_ok o = true /\ out o <> [] /\ traceback o = false.
-Proof. exact total_partial. Qed.
-Print Assumptions C20_total_partial.
+Proof. exact (fun base pid sesc r c b ch t p ml mc a rd fs inp =>
+                total_gen base pid sesc current r c b ch t p ml mc a rd fs eq_refl inp (or_introl eq_refl)). Qed.
+Print Assumptions C20_total.
 
-(* ... and then stdout is the cached text, the freshly built line (which is what set_cache was
-   given), or "?", followed by one "\n" *)
+(* ... and stdout is the cached text (only if that is exactly one line), the freshly built line (which is what
+   set_cache was given), or "?", followed by one "\n" *)
 Theorem C20_total_shape :
   forall base pid sesc o_repr o_configured o_branch o_changes o_transcript o_pct o_mcp_local o_mcp_cache o_age o_read o_fs inp,
-  stdout_hazard inp = false ->
-  let o := sl_main base pid sesc o_repr o_configured o_branch o_changes o_transcript o_pct o_mcp_local o_mcp_cache
-               o_age o_read o_fs true inp in
-  (exists c, get_cached base o_age o_read (session_of (data_of inp)) = Some c /\ c <> [] /\ out o = c ++ NL /\
+  let o := sl_main base pid sesc current o_repr o_configured o_branch o_changes o_transcript o_pct o_mcp_local o_mcp_cache
+               o_age o_read o_fs inp in
+  (exists c, get_cached base o_age o_read (session_of (data_of inp)) = Some c /\ single_line c = true /\ out o = c ++ NL /\
              served o = true /\ store o = SNothing) \/
-  (exists line, b_out (build_statusline o_repr o_configured o_branch o_changes o_transcript o_pct o_mcp_local o_mcp_cache
+  (exists line, b_out (build_statusline current o_repr o_configured o_branch o_changes o_transcript o_pct o_mcp_local o_mcp_cache
                          (data_of inp)) = Ok line /\ out o = line ++ NL /\
                 store o = set_cache base pid o_fs (session_of (data_of inp)) line) \/
   out o = QMARK ++ NL.
-Proof. exact run_shape. Qed.
+Proof. exact (fun base pid sesc r c b ch t p ml mc a rd fs inp =>
+                run_shape base pid sesc current r c b ch t p ml mc a rd fs eq_refl inp (or_introl eq_refl)). Qed.
 Print Assumptions C20_total_shape.
 
-(* the full statement is false of today's code: {"context_window":{"context_window_size":100},
-   "transcript_path":true} closes stdout under the interpreter: nothing is printed (confirmed on /repo:
-   empty stdout; exit status 120 or 1, occasionally 0 - the status is not modelled) *)
-Theorem C20_total_refuted : exists inp, stdout_hazard inp = true /\ out (run_quiet true inp) = [].
-Proof. exact (ex_intro _ hazard_input (conj eq_refl (proj2 total_refuted))). Qed.
-Print Assumptions C20_total_refuted.
+(* the code before fe4fc32: {"context_window":{"context_window_size":100},"transcript_path":true} closes stdout
+   under the interpreter, nothing is printed (was confirmed on /repo: empty stdout, exit status 120 / 1 / 0);
+   everything else was total already *)
+Theorem C20_total_tpstr_legacy_refuted : exists inp, stdout_hazard inp = true /\ out (run_quiet before_tpstr inp) = [].
+Proof. exact (ex_intro _ hazard_input tpstr_legacy_refuted). Qed.
+Print Assumptions C20_total_tpstr_legacy_refuted.
+Theorem C20_total_tpstr_legacy_partial :
+  forall base pid sesc o_repr o_configured o_branch o_changes o_transcript o_pct o_mcp_local o_mcp_cache o_age o_read o_fs inp,
+  stdout_hazard inp = false ->
+  let o := sl_main base pid sesc before_tpstr o_repr o_configured o_branch o_changes o_transcript o_pct o_mcp_local o_mcp_cache
+               o_age o_read o_fs inp in
+  exit_ok o = true /\ out o <> [] /\ traceback o = false.
+Proof. exact (fun base pid sesc r c b ch t p ml mc a rd fs inp H =>
+                total_gen base pid sesc before_tpstr r c b ch t p ml mc a rd fs eq_refl inp (or_intror H)). Qed.
+Print Assumptions C20_total_tpstr_legacy_partial.
 
-(* the entry point as it was before the guard (F18): {"workspace":{"current_dir":5}} escapes *)
+(* the entry point before c6068c5 (F18): {"workspace":{"current_dir":5}} escapes with a traceback *)
 Theorem C20_total_legacy_refuted : exists inp, stdout_hazard inp = false /\
-  traceback (run_quiet false inp) = true /\ exit_ok (run_quiet false inp) = false.
+  traceback (run_quiet before_guard inp) = true /\ exit_ok (run_quiet before_guard inp) = false.
 Proof. exact (ex_intro _ f18_input (conj eq_refl legacy_refuted)). Qed.
 Print Assumptions C20_total_legacy_refuted.
 
@@ -106,12 +122,42 @@ Proof. exact styles_total. Qed.
 Print Assumptions C20_styles_total.
 
 (* ------------------------------------------------------------------ single line *)
-(* provenance: for ANY predicate P on characters that holds of the constant text of the line
-   (escape sequences, separators, glyphs, labels), if it holds of the text fields and of the answers
-   of the data sources then it holds of every character of the built line.  No other character
-   can appear. *)
-Theorem C20_oneline_build :
-  forall o_repr o_configured o_branch o_changes o_transcript o_pct o_mcp_local o_mcp_cache (P : N -> Prop),
+(* stdout is exactly one line - line ++ "\n" where line contains none of the characters at which
+   str.splitlines() breaks (\n \v \f \r FS GS RS NEL U+2028 U+2029) - for EVERY input, every answer of every data
+   source and every content of the cache file: nothing is assumed about line breaks anywhere *)
+Theorem C20_oneline :
+  forall base pid sesc o_repr o_configured o_branch o_changes o_transcript o_pct o_mcp_local o_mcp_cache o_age o_read o_fs inp,
+  let o := sl_main base pid sesc current o_repr o_configured o_branch o_changes o_transcript o_pct o_mcp_local o_mcp_cache
+               o_age o_read o_fs inp in
+  exists line, out o = line ++ NL /\ Forall (fun c => is_break c = false) line.
+Proof. exact (fun base pid sesc r c b ch t p ml mc a rd fs inp =>
+                oneline_gen base pid sesc current r c b ch t p ml mc a rd fs eq_refl inp eq_refl (or_introl eq_refl)). Qed.
+Print Assumptions C20_oneline.
+
+(* ... hence also along every history of invocations sharing the cache directory (any session ids, ages,
+   file-system failures; the cache files read back in text mode), from any initial cache files whatsoever *)
+Theorem C20_oneline_history : forall base l f,
+  Forall (fun o => exists line, out o = line ++ NL /\ Forall (fun c => is_break c = false) line) (history current base f l).
+Proof. exact (fun base l f => history_oneline current base l eq_refl eq_refl eq_refl f). Qed.
+Print Assumptions C20_oneline_history.
+
+(* the code before 16f7bd5 served the cached text verbatim: two invocations whose text fields contain no "\n"
+   (the first has a "\r", which the text-mode read turns into "\n"), the second is served a line with an embedded
+   "\n" (was confirmed on /repo) *)
+Theorem C20_oneline_legacy_refuted :
+  let P := fun c : N => c <> 10 in
+  let l := [cr_inv [97; 13; 98]; cr_inv [122]] in
+  Forall P TEMPLATE /\ Forall (clean P) l /\
+  exists o1 o2, history before_oneline [47; 99] (fun _ => None) l = [o1; o2] /\ served o2 = true /\ In 10 (removelast (out o2)).
+Proof. exact history_cr_refuted. Qed.
+Print Assumptions C20_oneline_legacy_refuted.
+
+(* provenance (any version of the code): for ANY predicate P on characters that holds of the constant text of
+   the line (escape sequences, separators, glyphs, labels, the blank that replaces a line break), if it holds of
+   the text fields and of the answers of the data sources then it holds of every character of the built line.
+   No other character can appear. *)
+Theorem C20_provenance_build :
+  forall fx o_repr o_configured o_branch o_changes o_transcript o_pct o_mcp_local o_mcp_cache (P : N -> Prop),
   Forall P TEMPLATE -> forall data,
   Forall P (py_str o_repr (field_model data)) ->
   (forall s, field_cwd data = JStr s -> Forall P s) ->
@@ -120,24 +166,22 @@ Theorem C20_oneline_build :
   (forall u size t, o_pct u size = Ok t -> Forall P t) ->
   Forall (Forall P) o_mcp_local ->
   (forall a c, o_mcp_cache = Ok (a, c) -> Forall P c) ->
-  forall line, b_out (build_statusline o_repr o_configured o_branch o_changes o_transcript o_pct o_mcp_local o_mcp_cache data)
+  forall line, b_out (build_statusline fx o_repr o_configured o_branch o_changes o_transcript o_pct o_mcp_local o_mcp_cache data)
                = Ok line -> Forall P line.
 Proof. exact build_chars. Qed.
-Print Assumptions C20_oneline_build.
+Print Assumptions C20_provenance_build.
 
-(* the constant text contains none of the characters at which str.splitlines() breaks
-   (\n \v \f \r FS GS RS NEL U+2028 U+2029); hence P := "is not a line break" is admissible above, and
-   so is P := "is not \n" *)
+(* the constant text contains no line-break character *)
 Theorem C20_template_no_breaks : Forall (fun c => ~ In c LINE_BREAKS) TEMPLATE.
 Proof. exact template_no_breaks. Qed.
 Print Assumptions C20_template_no_breaks.
 
-(* one whole invocation: stdout is empty (only in the hazard case above) or line ++ "\n" with P on
-   every character of line - if P also holds of the text read from the cache file; and whatever
-   is stored in the cache satisfies P again *)
-Theorem C20_oneline_run :
-  forall base pid sesc o_repr o_configured o_branch o_changes o_transcript o_pct o_mcp_local o_mcp_cache o_age o_read o_fs
-         (P : N -> Prop),
+(* one whole invocation, any guarded version: stdout is empty (only the pre-fe4fc32 hazard) or line ++ "\n" with P
+   on every character of line, if P also holds of the text read from the cache file; and whatever is stored in
+   the cache satisfies P again.  Along histories: if P excludes "\r", "all cache files satisfy P" is an invariant. *)
+Theorem C20_provenance_run :
+  forall base pid sesc fx o_repr o_configured o_branch o_changes o_transcript o_pct o_mcp_local o_mcp_cache o_age o_read o_fs,
+  fx_guard fx = true -> forall (P : N -> Prop),
   Forall P TEMPLATE -> forall data,
   Forall P (py_str o_repr (field_model data)) ->
   (forall s, field_cwd data = JStr s -> Forall P s) ->
@@ -148,30 +192,16 @@ Theorem C20_oneline_run :
   (forall a c, o_mcp_cache = Ok (a, c) -> Forall P c) ->
   (forall p s, o_read p = Ok s -> Forall P s) ->
   forall inp, data = data_of inp ->
-  let o := sl_main base pid sesc o_repr o_configured o_branch o_changes o_transcript o_pct o_mcp_local o_mcp_cache
-               o_age o_read o_fs true inp in
+  let o := sl_main base pid sesc fx o_repr o_configured o_branch o_changes o_transcript o_pct o_mcp_local o_mcp_cache
+               o_age o_read o_fs inp in
   line_ok P o /\ store_ok P (store o).
 Proof. exact run_chars. Qed.
-Print Assumptions C20_oneline_run.
-
-(* histories: any number of invocations sharing the cache directory (any session ids, any ages, any
-   file-system failures), the cache files being read back in text mode (universal newlines).  If P
-   excludes "\r" then "all cache files satisfy P" is an invariant and every output is one P-line. *)
-Theorem C20_oneline_history : forall (P : N -> Prop),
-  (forall c, P c -> c <> 13) -> Forall P TEMPLATE ->
-  forall base l f, files_ok P f -> Forall (clean P) l -> Forall (line_ok P) (history base f l).
+Print Assumptions C20_provenance_run.
+Theorem C20_provenance_history : forall (P : N -> Prop),
+  (forall c, P c -> c <> 13) -> Forall P TEMPLATE -> forall fx, fx_guard fx = true ->
+  forall base l f, files_ok P f -> Forall (clean P) l -> Forall (line_ok P) (history fx base f l).
 Proof. exact history_ok. Qed.
-Print Assumptions C20_oneline_history.
-
-(* without that: two invocations whose text fields contain no "\n" (the first has a "\r"), the
-   second is served a line with an embedded "\n" (confirmed on /repo) *)
-Theorem C20_oneline_history_refuted :
-  let P := fun c : N => c <> 10 in
-  let l := [cr_inv [97; 13; 98]; cr_inv [122]] in
-  Forall P TEMPLATE /\ Forall (clean P) l /\
-  exists o1 o2, history [47; 99] (fun _ => None) l = [o1; o2] /\ served o2 = true /\ In 10 (removelast (out o2)).
-Proof. exact history_cr_refuted. Qed.
-Print Assumptions C20_oneline_history_refuted.
+Print Assumptions C20_provenance_history.
 
 (* ------------------------------------------------------------------ untorn cache *)
 (* the invariant holds initially (entry absent or holding any c0) and is preserved by every step of
@@ -218,13 +248,21 @@ Example C20_example_paths :
   get_cache_path $"/h/.cache" (JStr $"a/b") = get_cache_path $"/h/.cache" (JStr $"a_b").
 Proof. repeat split; vm_compute; reflexivity. Qed.
 
-Example C20_example_guard : out (run_quiet true f18_input) = QMARK ++ [10] /\ exit_ok (run_quiet true f18_input) = true.
+Example C20_example_guard : out (run_quiet current f18_input) = QMARK ++ [10] /\ exit_ok (run_quiet current f18_input) = true.
 Proof. exact guard_example. Qed.
 
 Example C20_example_line :
-  out (run_quiet true (Some (JObj [($"model", JObj [($"display_name", JStr $"Opus")]); ($"workspace", JObj [($"current_dir", JStr $"/a/proj")])])))
+  out (run_quiet current (Some (JObj [($"model", JObj [($"display_name", JStr $"Opus")]); ($"workspace", JObj [($"current_dir", JStr $"/a/proj")])])))
   = [27] ++ $"[38;2;187;187;187mOpus" ++ [27] ++ $"[0m | " ++ [27] ++ $"[38;2;187;187;187mproj" ++ [27] ++ $"[0m" ++ [10].
 Proof. vm_compute. reflexivity. Qed.
+
+(* the witnesses of the legacy refutations, on the repaired code *)
+Example C20_example_tpstr : out (run_quiet current hazard_input) <> [] /\ exit_ok (run_quiet current hazard_input) = true.
+Proof. exact tpstr_example. Qed.
+Example C20_example_cr :
+  exists o1 o2, history current [47; 99] (fun _ => None) [cr_inv [97; 13; 98]; cr_inv [122]] = [o1; o2] /\
+    served o2 = true /\ ~ In 10 (removelast (out o1)) /\ ~ In 13 (out o1) /\ out o2 = out o1.
+Proof. exact history_cr_example. Qed.
 
 Example C20_example_schedule :
   exists s, exec Protocol (init (Some [A_]))
